@@ -1355,6 +1355,14 @@ class Engine:
             if res.ndim == 0:
                 return st.read_base(s, obj.base, [d[1] for d in dims])
             return res
+        if isinstance(obj, SRecord) and 'm:__getitem__' in obj.fields:
+            # a modelled library object whose subscript is given by an assumed contract (hook)
+            if isinstance(node.slice, ast.Slice):
+                parts = [NONE if e is None else self.eval(e, s, fr) for e in (node.slice.lower, node.slice.upper, node.slice.step)]
+                key = SRecord('slice', {'start': parts[0], 'stop': parts[1], 'step': parts[2]})
+            else:
+                key = self.eval(node.slice, s, fr)
+            return obj.fields['m:__getitem__'](self, s, fr, obj, [key], {}, node.lineno)
         raise Unsupported(f"subscript of {type(obj).__name__}")
 
     def index_value(self, arr, i, s, fr):
